@@ -377,10 +377,10 @@ func genC20Merge(t *rapid.T) c20MergeScenario {
 			universe = append(universe, i)
 		}
 	}
-	for i, n := 0, 1 + c20U(t, 3, "nnested"); i < n; i++ {
+	for i, n := 0, 1+c20U(t, 3, "nnested"); i < n; i++ {
 		add(c20NestedIdx[c20U(t, len(c20NestedIdx), "nested")])
 	}
-	for i, n := 0, 1 + c20U(t, vt.Scale(7, 12), "nother"); i < n; i++ {
+	for i, n := 0, 1+c20U(t, vt.Scale(7, 12), "nother"); i < n; i++ {
 		add(c20U(t, len(c20Keys), "key"))
 	}
 
